@@ -664,11 +664,11 @@ Definition parse_v2 (toks : list text) : result :=
                 else if c2 =c? "f" then Some TFloat else None in
       match dens, real, ct, scan_int tp, scan_int tn with
       | Some dn, Some rl, Some ct, Some p, Some n =>
+        if (n <? 0)%Z then ParseError        (* "Error reading the degree of the polynomial": tested before the 'u' hook *)
+        else
         match dn with
         | None => UserPoly
         | Some dn =>
-          if (n <? 0)%Z then ParseError      (* negative degree: allocation of a negative size in the real code (C09) *)
-          else
           let st := {| s_struct := mk_structure rl ct; s_density := dn; s_repr := KMonomial;
                        s_prec := prec_bits p; s_n := n |} in
           let n1 := S (Z.to_nat n) in
